@@ -463,6 +463,11 @@ def atomH1 : Atom := ⟨1, 1, 0⟩
 def atomD : Atom := ⟨1, 2, 0⟩
 def atomO : Atom := ⟨8, 0, 0⟩
 
+/-- the compound with a fraction `d` of its labile hydrogens H[1] replaced by D and the rest by
+    natural H: `mol.replace(H[1], D, d).replace(H[1], H)` -/
+def substituted (am : Atom → α) (c : Compound α) (d : α) : Compound α :=
+  replace am (replace am c atomH1 atomD d) atomH1 atomH 1
+
 /-- `Formula.natural_mass_ratio` for un-ionised atoms: natural element mass over isotope mass -/
 def naturalMassRatio (t : Tbl α) (atoms : List (Atom × α)) : α :=
   let nat := atoms.foldl (fun s e => s + e.2 * t.mass e.1.z 0) 0
